@@ -66,6 +66,8 @@ func (c *tablesCase) source() string {
 			fmt.Fprintf(&b, "func local%d() {\n\ttype %s int\n\tconst C%s = %d\n\tvar _ %s = C%s\n}\n\n", i, d.Name, d.Name, i, d.Name, d.Name)
 		case "tparam":
 			fmt.Fprintf(&b, "func generic%d[%s any](x %s) {}\n\n", i, d.Name, d.Name)
+		case "localiface": // a function-local named interface: its methods belong to the local type, whatever it is called
+			fmt.Fprintf(&b, "func localI%d() {\n\ttype %s interface{ Sync%d() error }\n\tvar _ %s\n}\n\n", i, d.Name, i, d.Name)
 		case "init":
 			b.WriteString("func init() {}\n\n")
 		case "blank":
@@ -363,7 +365,7 @@ func (c *tablesCase) Classes() []string {
 	for _, d := range c.Decls {
 		m["decl:"+d.Kind] = true
 		switch d.Kind {
-		case "type", "gtype", "iface", "alias", "localtype", "tparam", "recvtparam":
+		case "type", "gtype", "iface", "alias", "localtype", "localiface", "tparam", "recvtparam":
 			names[d.Name]++
 		}
 		if d.Kind == "method" && d.Gen {
@@ -392,7 +394,9 @@ func genTables(r *Rng) *tablesCase {
 	n := 2 + r.Intn(8)
 	mi := 0
 	for i := 0; i < n; i++ {
-		switch r.Intn(16) {
+		switch r.Intn(18) {
+		case 16, 17:
+			c.Decls = append(c.Decls, LDecl{Kind: "localiface", Name: Pick(r, append(names, "Z"))})
 		case 14:
 			c.Decls = append(c.Decls, LDecl{Kind: "blanktype"})
 		case 15:
@@ -1214,10 +1218,10 @@ func init() {
 			Rule: "two-module layouts: a main module (3 module paths) requiring a second module (3 paths, one of them looking like a sub-path of the main module) that a replace directive points at a directory beside the main module, nested inside it, or deeper elsewhere; three packages per module; compared with the model (path arithmetic of SourceDir, LocateInPackage as search over the universe, the locality decision of Load): the source directory of all six packages, the package located for a position and LocalPkgPaths(); oracle: SourceDir() = the directory the harness wrote the files to, LocateInPackage(position) = the package itself, local = exactly the three packages of the main module, all direct",
 		},
 		{
-			Name: "tables", Quick: 450, Thorough: 4500, New: func() Case { return &tablesCase{} },
+			Name: "tables", Quick: 900, Thorough: 6000, New: func() Case { return &tablesCase{} },
 			Gen:      func(r *Rng, i int) Case { return genTables(r) },
 			BatchRun: tablesBatch, ShrinkBudget: 40, MaxShrinks: 5,
-			Rule: "synthetic packages of 2–9 declarations among struct / generic / interface / alias types, consts, vars, funcs, value- and pointer-receiver methods on plain and generic types, function-local types and constants, type parameters of generic functions and of receivers (all often sharing names with package-level declarations), init and blank functions/variables/constants, pairs of blank type and constant declarations, interface literals (in a variable's type, an alias, a type assertion) whose method carries the name of a package-level function; loaded with the real types.Load (150 per load); the model gets types.Info.Defs of an independent type-check of the same source; compared: Types/Constants/Functions as name → object position; oracle: the loader's own types.Package scope by pointer identity, Named.Method(i) for MethodsOf",
+			Rule: "synthetic packages of 2–9 declarations among struct / generic / interface / alias types, consts, vars, funcs, value- and pointer-receiver methods on plain and generic types, function-local types, named interfaces and constants, type parameters of generic functions and of receivers (all often sharing names with package-level declarations), init and blank functions/variables/constants, pairs of blank type and constant declarations, interface literals (in a variable's type, an alias, a type assertion) whose method carries the name of a package-level function; loaded with the real types.Load (150 per load); the model gets types.Info.Defs of an independent type-check of the same source; compared: Types/Constants/Functions as name → object position; oracle: the loader's own types.Package scope by pointer identity, Named.Method(i) for MethodsOf",
 		},
 		{
 			Name: "methods", New: func() Case { return &methodsCase{} },
@@ -1240,7 +1244,7 @@ func init() {
 			Rule: "every combination of {plain, generic} type × 0–3 methods × {value, pointer} receivers × MethodsOf(T, true/false), next to a second type with a method of its own",
 		},
 		{
-			Name: "imports", Quick: 150, Thorough: 1500, New: func() Case { return &dagCase{} },
+			Name: "imports", Quick: 300, Thorough: 2000, New: func() Case { return &dagCase{} },
 			Gen:      func(r *Rng, i int) Case { return genDag(r) },
 			BatchRun: dagBatch, ShrinkBudget: 30, MaxShrinks: 4,
 			Rule: "acyclic import graphs of 1–6 module packages (some also importing std packages), loaded from 1–6 roots listed in either order, all graphs of a run in one types.Load; compared with the registration model: every import table entry resolved or not; oracle: Imports() total, non-nil and identical to Universe.Package(path), SourceDir() = directory of the files, LocateInPackage(position) = the package",
